@@ -79,7 +79,8 @@ def _run(c, seed, m=None, none_at=None, cb_at=None, e=None, e_vld=None, nswp=Non
     cb = ScriptedCallback(true_at=cb_at) if with_cb else None
     info = {}
     kw = dict(m=m, e=e, nswp=nswp, dr_min=c['dr'][0], dr_max=c['dr'][1], info=info,
-              cache=cache, cb=cb, e_vld=e_vld, m_cache_scale=scale)
+              cache=cache, cb=cb, e_vld=e_vld, m_cache_scale=scale, k0=c.get('k0', 100), tau=c.get('tau', 1.1),
+              tau0=c.get('tau0', 1.05))
     if use_vld:
         I_vld, y_vld = _vld(c, T)
         kw.update(I_vld=I_vld, y_vld=y_vld)
@@ -300,7 +301,7 @@ def check_config(c):
     if not base.ok:
         res.fail('base', c, 'unconstrained run did not give 2*d*N requests / N sweeps')
         return res
-    cc = {k: c[k] for k in ('shape', 'target', 'rho', 'r0', 'dr', 'cache', 'seed')}
+    cc = {k: c[k] for k in ('shape', 'target', 'rho', 'r0', 'dr', 'cache', 'seed', 'k0', 'tau', 'tau0') if k in c}
     ex0 = model(base, cc, nswp=N)
     M, K = ex0['m'], ex0['fcalls']
     # 0 deviations
@@ -450,6 +451,11 @@ def _configs(tier, seed):
                     for cache in (False, True):
                         out.append(dict(shape=sh, target=target, rho=rho, r0=r0, dr=list(dr),
                                         cache=cache, N=N, seed=seed))
+    # non-default maxvol parameters (iteration limit 1, loose accuracy) on one shape
+    for k0, tau, tau0 in ((1, 1.1, 1.05), (100, 2.0, 1.5), (0, 1.1, 1.05) if False else (2, 3.0, 1.01)):
+        for dr in drs[:3]:
+            for cache in (False, True):
+                out.append(dict(shape=[3, 2, 3], target='gen', rho=2, r0=1, dr=list(dr), cache=cache, N=N, seed=seed, k0=k0, tau=tau, tau0=tau0))
     return out
 
 
